@@ -93,6 +93,33 @@ def numeric_stream(ctx, single_col_zone, two_col_zone, old_spec):
                 ctx.fail(case, "left/right trap sites are not pairs gate_spacing apart, pairs spacing apart")
 
 
+def wide_and_default_stream(ctx, two_col_zone):
+    """two-column layouts far wider than the sweep (the Gemini gate zone is 17 pairs wide), and the documented defaults when an
+    argument is omitted (gate spacing 2.0 whatever the spacing; spacing 10.0)"""
+    def cols(nx, s, gs):
+        return [k * (s + gs) + d for k in range(nx) for d in (0.0, gs)]
+    for nx in list(range(9, 81)) + [128, 257, 300]:
+        sp = two_col_zone.get_spec(nx, 2, 4.0, 1.0)
+        l = sp.layout.static_traps
+        ctx.count("wide_twocol")
+        case = {"builder": "two_col_zone.get_spec", "args": [nx, 2, "4.0", "1.0"]}
+        if (list(l["traps"].x_positions) != cols(nx, 4.0, 1.0) or list(l["left_traps"].x_positions) != cols(nx, 4.0, 1.0)[0::2]
+                or list(l["right_traps"].x_positions) != cols(nx, 4.0, 1.0)[1::2]):
+            ctx.fail(case, "left/right trap columns of a wide two-column layout are not the documented ones")
+    for s in (10.0, 8.0, 4.0, 25.0):
+        for form, sp in (("get_spec(3, 2, s)", two_col_zone.get_spec(3, 2, s)), ("get_spec(3, 2, spacing=s)", two_col_zone.get_spec(3, 2, spacing=s))):
+            ctx.count("default_gate_spacing_forms")
+            if list(sp.layout.static_traps["traps"].x_positions) != cols(3, s, 2.0):
+                ctx.fail({"builder": "two_col_zone.get_spec", "call": form, "spacing": s},
+                         "with the gate spacing omitted, pairs are not the documented default 2.0 apart")
+    for gs in (2.0, 1.0, 3.5):
+        sp = two_col_zone.get_spec(3, 2, gate_spacing=gs)
+        ctx.count("default_gate_spacing_forms")
+        if list(sp.layout.static_traps["traps"].x_positions) != cols(3, 10.0, gs):
+            ctx.fail({"builder": "two_col_zone.get_spec", "call": "get_spec(3, 2, gate_spacing=gs)", "gate_spacing": gs},
+                     "with the spacing omitted, pairs are not the documented default 10.0 apart")
+
+
 def run(ctx):
     from bloqade.shuttle.stdlib.layouts import single_col_zone, two_col_zone
     from bloqade.shuttle.stdlib.layouts.gemini import base_spec, logical
@@ -148,6 +175,7 @@ def run(ctx):
         caps_ok(ctx, sp, case)
         ctx.count("twocol")
     numeric_stream(ctx, single_col_zone, two_col_zone, old_spec)
+    wide_and_default_stream(ctx, two_col_zone)
     fresh_results(ctx, single_col_zone, two_col_zone, old_spec, base_spec, logical)
     try:
         gemini(ctx, base_spec.get_base_spec(), logical.get_spec(), reqs, impls, metas)
